@@ -5,7 +5,7 @@
 //! Record grammar (shared with runner/s_relgrammar.ml):
 //!   relation := "n:" (hex|PANIC) ",q:" ("-"|"+"hex) ",v:" ("-"|op"."hex|PANIC)
 //!               ",a:" ("-"|"+"[item("."item)*]) ",p:" group*
-//!   op       := ge | le | eq | gt | lt          item := ["!"]hex
+//!   op       := ge | le | eq | gt | lt          item := hex   (a negated architecture is "!name")
 //!   group    := "<" [term("."term)*] ">"        term := ("e"|"d")hex
 //!   entry    := relation ("/" relation)*        entries := entry (";" entry)*
 use crate::util::*;
